@@ -28,5 +28,7 @@ func (g *Genome) mateMultipoint(og *Genome, id int, f1, f2 float64) (*Genome, er
 func (g *Genome) mateMultipointAvg(og *Genome, id int, f1, f2 float64) (*Genome, error) {
 	return c10Mate(g, og, id, f1, f2)
 }
-func (g *Genome) mateSinglePoint(og *Genome, id int) (*Genome, error) { return c10MateSingle(g, og, id) }
+func (g *Genome) mateSinglePoint(og *Genome, id int) (*Genome, error) {
+	return c10MateSingle(g, og, id)
+}
 func (g *Genome) compatibility(og *Genome, opts *neat.Options) float64 { return c08Compat(g, og, opts) }
